@@ -111,14 +111,14 @@ func refObjectHeaders(c caseSpec) hdrs {
 	case kSearch:
 		return h
 	case kRange, kDelete:
-		h[hOID] = []string{oidStr(1)}
+		h[hOID] = []string{reqOIDStr(c)}
 		return h
 	case kPut:
 		if c.Obj.HasID {
-			h[hOID] = []string{oidStr(1)}
+			h[hOID] = []string{reqOIDStr(c)}
 		}
 	default:
-		h[hOID] = []string{oidStr(1)}
+		h[hOID] = []string{reqOIDStr(c)}
 	}
 	h[hOwner] = []string{userStr(c.Obj.Owner)}
 	h[hType] = []string{c.Obj.Type}
